@@ -78,6 +78,9 @@ func (fx *FnExec) Run() (obls []*Obligation, err error) {
 	if fx.C != nil {
 		for _, g := range fx.W.Contracts.Ghosts {
 			n := fx.havoc("gh_"+g.Name, g.Sort)
+			if g.Init != "" {
+				fx.assumeGlobal("(= " + n + " " + g.Init + ")")
+			}
 			entry.gh[g.Name] = n
 			fx.entryGh[g.Name] = n
 		}
@@ -190,6 +193,9 @@ func (fx *FnExec) enterBlock(b *ssa.BasicBlock) *blockState {
 		var term string
 		for i := len(ins) - 1; i >= 0; i-- {
 			v := ins[i].st.gh[k]
+			if v == "" && k == "$acnt" {
+				v = "0"
+			}
 			if term == "" {
 				term = v
 			} else {
@@ -199,6 +205,11 @@ func (fx *FnExec) enterBlock(b *ssa.BasicBlock) *blockState {
 		if g := fx.W.Contracts.ghost(k); g != nil && strings.HasPrefix(term, "(ite") {
 			n := fx.freshName("gh_" + k + "_m")
 			fx.emit("(define-fun %s () %s %s)", n, g.Sort, term)
+			term = n
+		}
+		if k == "$acnt" && strings.HasPrefix(term, "(ite") {
+			n := fx.freshName("acnt_m")
+			fx.emit("(define-fun %s () Int %s)", n, term)
 			term = n
 		}
 		st.gh[k] = term
@@ -344,17 +355,26 @@ func (fx *FnExec) enterLoop(b *ssa.BasicBlock, li *loopInfo, st *blockState) {
 		o.Props = inv.Props
 	}
 	// 2. havoc: phis and modified heaps
-	mods, all := fx.modifiedInLoop(li)
+	mods, iterFresh, all := fx.modifiedInLoop(li)
+	acntEntry := fx.allocCount()
 	if all {
 		for name := range fx.W.heapSorts {
 			fx.havocHeap(name)
 		}
 	} else {
 		for _, name := range sortedKeys(mods) {
-			if _, ok := fx.W.heapSorts[name]; !ok {
+			sort, ok := fx.W.heapSorts[name]
+			if !ok {
 				continue
 			}
+			before := fx.heapArr(name, sort)
 			fx.havocHeap(name)
+			if iterFresh[name] {
+				// only objects allocated inside the loop are written: everything that existed at loop
+				// entry is unchanged (frame axiom)
+				after := fx.cur.heap[name]
+				fx.assumeGlobal("(forall ((qr Int)) (! (=> (<= qr (+ " + fx.allocBase() + " " + acntEntry + ")) (= (select " + after + " qr) (select " + before + " qr))) :pattern ((select " + after + " qr))))")
+			}
 		}
 	}
 	// ghosts modified in loop: havoc all ghosts conservatively when the loop contains calls
@@ -362,6 +382,12 @@ func (fx *FnExec) enterLoop(b *ssa.BasicBlock, li *loopInfo, st *blockState) {
 		if _, ok := st.gh[g.Name]; ok && fx.loopTouchesGhost(li, g.Name) {
 			st.gh[g.Name] = fx.havoc("gh_"+g.Name+"_l", g.Sort)
 		}
+	}
+	{
+		old := fx.allocCount()
+		nc := fx.havoc("acnt_l", "Int")
+		fx.assumeGlobal("(>= " + nc + " " + old + ")")
+		st.gh["$acnt"] = nc
 	}
 	for _, in := range b.Instrs {
 		phi, ok := in.(*ssa.Phi)
@@ -380,9 +406,9 @@ func (fx *FnExec) enterLoop(b *ssa.BasicBlock, li *loopInfo, st *blockState) {
 		if localOnly(phi, map[ssa.Value]bool{}) {
 			switch phi.Type().Underlying().(type) {
 			case *types.Slice:
-				fx.assume("(or (and (= (s.arr " + h + ") 0) (= (s.cap " + h + ") 0)) (> (s.arr " + h + ") " + fx.allocBase() + "))")
+				fx.assume("(or (and (= (s.arr " + h + ") 0) (= (s.cap " + h + ") 0)) (and (> (s.arr " + h + ") " + fx.allocBase() + ") (<= (s.arr " + h + ") (+ alloc_base " + fx.allocCount() + "))))")
 			case *types.Map, *types.Pointer:
-				fx.assume("(or (= " + h + " 0) (> " + h + " " + fx.allocBase() + "))")
+				fx.assume("(or (= " + h + " 0) (and (> " + h + " " + fx.allocBase() + ") (<= " + h + " (+ alloc_base " + fx.allocCount() + "))))")
 			}
 		}
 	}
@@ -411,8 +437,10 @@ func (fx *FnExec) loopTouchesGhost(li *loopInfo, name string) bool {
 			continue
 		}
 		for _, in := range b.Instrs {
-			if _, ok := in.(ssa.CallInstruction); ok {
-				return true
+			if c, ok := in.(ssa.CallInstruction); ok {
+				if fx.ghostTouch == nil || fx.ghostTouch(c) {
+					return true
+				}
 			}
 		}
 	}
@@ -523,7 +551,14 @@ func (fx *FnExec) loopInvariants(li *loopInfo) []*CExpr {
 	if fx.C == nil {
 		return nil
 	}
-	return append(append([]*CExpr{}, fx.C.LoopInv[-1]...), fx.C.LoopInv[li.ordinal]...)
+	var out []*CExpr
+	for _, e := range append(append([]*CExpr{}, fx.C.LoopInv[-1]...), fx.C.LoopInv[li.ordinal]...) {
+		if e.GhostOnly != "" && !fx.loopTouchesGhost(li, e.GhostOnly) {
+			continue
+		}
+		out = append(out, e)
+	}
+	return out
 }
 
 func (fx *FnExec) loopDecreases(li *loopInfo) *CExpr {
@@ -867,6 +902,7 @@ func (fx *FnExec) execUnOp(x *ssa.UnOp) {
 			}
 			fx.defReg(x, t)
 		} else {
+			fx.declareFun("f_neg", []string{"F"}, "F")
 			fx.defReg(x, fx.ufApp("f_neg", "F", fx.term(v)))
 		}
 	default:
